@@ -1,25 +1,46 @@
 (** C14 - versions advance one at a time and a stale commit is refused.
     Property theorems only; each closed by [exact] of a lemma from Proofs/. *)
-From Rocfl Require Import Base.Bytes Model.VersionNum Model.Known Proofs.VersionNumFacts.
+From Rocfl Require Import Base.Bytes Model.VersionNum Proofs.VersionNumFacts.
 From Rocfl Require Import Model.MultiClient Model.KnownC14 Proofs.MultiClientFacts.
 Open Scope N_scope.
 
+(** [vnumok v]: the number is a u32 >= 1 (every number the code can hold); the WIDTH is
+    unrestricted - 11, 20, u32::MAX and beyond included - and so is the build mode. *)
 Theorem C14_next_is_spec : forall dbg v,
-  vwf v = true -> c14_overflow v = false -> vnext dbg v = vnext_spec v.
+  vnumok v = true -> vnext dbg v = vnext_spec v.
 Proof. exact vnext_correct. Qed.
 Print Assumptions C14_next_is_spec.
 
 Theorem C14_next_plus_one_keeps_width : forall dbg v v',
-  vwf v = true -> c14_overflow v = false -> vnext dbg v = Ok v' ->
-  vn_number v' = vn_number v + 1 /\ vn_width v' = vn_width v /\ vfits v' = true /\ vwf v' = true.
+  vnumok v = true -> vnext dbg v = Ok v' ->
+  vn_number v' = vn_number v + 1 /\ vn_width v' = vn_width v /\ vfits v' = true /\ vnumok v' = true.
 Proof. exact vnext_ok_plus_one. Qed.
 Print Assumptions C14_next_plus_one_keeps_width.
 
 Theorem C14_next_refuses_past_width_max : forall dbg v,
-  vwf v = true -> c14_overflow v = false ->
+  vnumok v = true ->
   max_for_width (vn_width v) < vn_number v + 1 -> vnext dbg v = Err.
 Proof. exact vnext_refuses_at_max. Qed.
 Print Assumptions C14_next_refuses_past_width_max.
+
+(** the executable maximum is the mathematical one: min(u32::MAX, 10^(w-1) - 1) *)
+Theorem C14_max_for_width_is_min : forall w,
+  1 <= w -> max_for_width w = N.min U32MAX (10 ^ (w - 1) - 1).
+Proof. exact max_for_width_min. Qed.
+Print Assumptions C14_max_for_width_is_min.
+
+(** no u32 overflow in any build mode, at any width, at any number (u32::MAX included) *)
+Theorem C14_next_never_panics : forall dbg v, vnumok v = true -> vnext dbg v <> Panic.
+Proof. exact vnext_never_panics. Qed.
+Print Assumptions C14_next_never_panics.
+
+Theorem C14_next_same_in_debug_and_release : forall v, vnumok v = true -> vnext true v = vnext false v.
+Proof. exact vnext_mode_independent. Qed.
+Print Assumptions C14_next_same_in_debug_and_release.
+
+Theorem C14_next_refuses_at_u32_max : forall dbg w, vnext dbg (mkV U32MAX w) = Err.
+Proof. exact vnext_number_u32max. Qed.
+Print Assumptions C14_next_refuses_at_u32_max.
 
 Theorem C14_display_parse_roundtrip : forall v,
   vwf v = true -> vfits v = true -> vparse (vdisplay v) = Ok v.
@@ -31,21 +52,26 @@ Theorem C14_padded_name_length_constant : forall v,
 Proof. exact vdisplay_length_padded. Qed.
 Print Assumptions C14_padded_name_length_constant.
 
-(** The excluded class is a genuine defect of the modelled code (known finding). *)
-Theorem C14_known_width11_refuted : vnext true (mkV 1 11) = Panic.
-Proof. exact vnext_width11_panics_debug. Qed.
-Print Assumptions C14_known_width11_refuted.
+(** Historical note (NOT about the current code): the arithmetic before fix 476b184, kept as
+    the separate definition [vnext_before_fix], panicked here in debug builds. *)
+Theorem C14_before_fix_width11_panicked : vnext_before_fix true (mkV 1 11) = Panic.
+Proof. exact vnext_before_fix_width11_panicked_debug. Qed.
+Print Assumptions C14_before_fix_width11_panicked.
 
-(** Non-vacuity: the hypotheses are met by concrete version numbers. *)
+(** Non-vacuity: the hypotheses are met by concrete version numbers, inside and outside the
+    former overflow class. *)
 Example C14_nonvacuous :
-  vwf (mkV 98 3) = true /\ c14_overflow (mkV 98 3) = false /\ vfits (mkV 98 3) = true /\
-  vnext true (mkV 98 3) = Ok (mkV 99 3) /\ vnext true (mkV 99 3) = Err.
+  vnumok (mkV 98 3) = true /\ vfits (mkV 98 3) = true /\
+  vnext true (mkV 98 3) = Ok (mkV 99 3) /\ vnext true (mkV 99 3) = Err /\
+  vnext true (mkV 1 11) = Ok (mkV 2 11) /\ vnext false (mkV 1 11) = Ok (mkV 2 11) /\
+  vnext true (mkV 4294967294 4294967295) = Ok (mkV 4294967295 4294967295) /\
+  vnext true (mkV 4294967294 0) = Ok (mkV 4294967295 0) /\ vnext true (mkV 4294967295 0) = Err.
 Proof. repeat split; vm_compute; reflexivity. Qed.
 
 (** * Second half: clients that share a storage root but use different staging roots
     (Model/MultiClient.v).  An interleaving is any list of (client, operation); states are
     quantified through the invariant [mc_inv] of the states reachable outside the known
-    classes ([C14_reachable_invariant]). *)
+    class recreated-lineage ([C14_reachable_invariant]); no restriction on padding widths. *)
 
 Theorem C14_reachable_invariant : forall dbg es,
   run_clean dbg mc_init es = true -> mc_inv (run dbg mc_init es).
@@ -107,7 +133,7 @@ Print Assumptions C14_versions_append_only.
 (** the main head is not the staged head - 1 (someone else committed first, or the object is
     gone): Err, and the whole system state - repository and staged changes - is unchanged *)
 Theorem C14_stale_commit_refused_unchanged : forall dbg st c id s,
-  sget st c id = Some s -> vwf (s_head s) = true -> vn_number (s_head s) <> 1 ->
+  sget st c id = Some s -> vnumok (s_head s) = true -> vn_number (s_head s) <> 1 ->
   (forall o, mget st id = Some o -> vn_number (o_head o) + 1 <> vn_number (s_head s)) ->
   step dbg st c (Commit id) = (st, Err).
 Proof. exact stale_commit_refused_unchanged. Qed.
@@ -138,13 +164,19 @@ Theorem C14_no_silent_merge : forall dbg st a c id sc st1 es,
 Proof. exact no_silent_merge. Qed.
 Print Assumptions C14_no_silent_merge.
 
-(** at the largest number the padding width can express a further version cannot even be staged *)
+(** at the largest number the padding width can express (u32::MAX for widths 0 and above 10)
+    a further version cannot even be staged *)
 Theorem C14_stage_refused_at_width_max : forall dbg st c id o e,
-  mc_inv st -> sget st c id = None -> mget st id = Some o -> c14_overflow (o_head o) = false ->
+  mc_inv st -> sget st c id = None -> mget st id = Some o ->
   max_for_width (vn_width (o_head o)) < vn_number (o_head o) + 1 ->
   step dbg st c (Stage id e) = (st, Err).
 Proof. exact stage_refused_at_width_max. Qed.
 Print Assumptions C14_stage_refused_at_width_max.
+
+(** no operation panics in a reachable state, whatever the padding widths *)
+Theorem C14_step_never_panics : forall dbg st c o, mc_inv st -> snd (step dbg st c o) <> Panic.
+Proof. exact step_never_panics. Qed.
+Print Assumptions C14_step_never_panics.
 
 (** The excluded class is a genuine defect of the modelled code (known finding recreated-lineage):
     a run, clean up to its last step, whose final commit is in the class, succeeds and replaces
